@@ -22,6 +22,8 @@ def run(ctx):
     chk.rule('Q5', 'the new buffer is as large as the old content; the part before the entry is copied whole to its start; '
                    'what is skipped lies within the entry\'s line (plus its newline) and is chosen by what follows the entry on '
                    'that line, so that libraries sharing the line stay; the rest is copied right behind; every copy is bounded', floor=5)
+    chk.rule('Q9', 'the line helpers mean what disable takes them to mean: the line length is the distance to the first '
+                   'newline (or to the end), and the line copy holds exactly that many characters', floor=2)
     chk.rule('Q8', 'in the code disable reaches, buffers are written before they are read and every loop changes something '
                    'its exit condition depends on', floor=5)
     chk.rule('Q6', 'own-entry recognition uses exactly the documented follower set and start-of-line test', floor=2)
@@ -30,7 +32,7 @@ def run(ctx):
         'with linear facts over pointers into the old content: first copy = [old, entry), second copy starts at '
         'entry + strlen(entry line) (+1 for its newline) - never later, so no following line, blank or comment can be '
         'swallowed - and lands right behind the first part.')
-    chk.assumptions = ['C20 holds', 'snoopy_util_string_copyLineFromContent returns the line starting at its argument']
+    chk.assumptions = ['C20 holds']
     chk.not_decided = ['the byte-level result in general (which separators remain on a shared line, CR-LF files)']
     prog = ctx.program(facts.AS_CONFIGURED, 'cli')
     C18.PROG[0] = prog
@@ -88,6 +90,7 @@ def run(ctx):
            how='second active line found -> fatalError before the write')
     follower_test(ctx, prog, 'Q6')
     C18.own_occurrence_rule(ctx, prog, 'Q6')
+    C18.foreign_needle_rule(ctx, prog, 'Q4')
     from rules.C18 import cli_memory_rules
     cli_memory_rules(ctx, prog, cg, DISABLE, 'Q8')
     from rules.C18 import whole_file_read_rule
@@ -129,8 +132,17 @@ def run(ctx):
                 'the copy of the remainder starts at %s: it must start inside the entry\'s line, at the latest one byte ' \
                 'behind it (the line\'s newline), and land right behind the first part; otherwise following lines (blank ' \
                 'lines, indentation, other entries) are removed as well' % s0
+        def q_rest(A, st):
+            s0, n = A.lin(arg(c2, 1), st), A.lin(arg(c2, 2), st)
+            # everything from the source position to the end of the old content: count == strlen(old) - (src - old)
+            want = Lcur - (s0 - CUR) if s0 is not None else None
+            ok = None not in (s0, n) and A.entails(st, n - want) and A.entails(st, want - n)
+            return ok, 'the copy of the remainder takes %s bytes from %s, not everything up to the end of the old content (%s): ' \
+                       'the tail of the file is cut off (or bytes behind it are read) when the skipped part is not the whole ' \
+                       'line, i.e. when another library shares the line with the entry' % (n, s0, want)
         queries[c1.id] = [('before-part-copied-whole', q_first)]
-        queries[c2.id] = [('skips-nothing-beyond-the-entry-line', q_second)]
+        queries[c2.id] = [('skips-nothing-beyond-the-entry-line', q_second), ('remainder-copied-to-the-end', q_rest)]
+    line_helpers_rule(ctx, prog)
     ba = BoundsAnalysis(prog, cg)
     obls = ba.analyse(F, queries=queries)
     seen = {}
@@ -157,6 +169,88 @@ def run(ctx):
             size = LinEnv(F).lin(arg(s, 0))
     chk.ob('Q5', 'buffer-size', size is not None and size == Lcur + Lin.const(1), wc.where(), F.name,
            'the new buffer holds %s bytes, expected strlen(old content) + 1' % size, how='malloc(%s)' % size)
+
+
+def line_helpers_rule(ctx, prog):
+    chk = ctx.chk
+    GL = prog.require_func('snoopy_util_string_getLineLength')
+    CL = prog.require_func('snoopy_util_string_copyLineFromContent')
+    # ---- length of a line ---------------------------------------------------------------------------------
+    p0 = GL.params[0]['id']
+    env = LinEnv(GL)
+    P = Lin.sym(('var', p0, GL.params[0]['name']))
+    SL = Lin.sym(('strlen', ('decl', p0), GL.params[0]['name']))
+    ok, detail = False, 'no search for the newline found'
+    spans = [c for c in GL.calls('strcspn') if (decl_of(arg(c, 0)) or {}).get('id') == p0 and strip(arg(c, 1)).get('s') == '\n']
+    hits = [c for c in GL.calls() if c.get('callee') in ('strchr', 'memchr') and (decl_of(arg(c, 0)) or {}).get('id') == p0 and
+            strip(arg(c, 1)).get('v') == 10]
+    rets = C.return_nodes(GL)
+    if spans and len(rets) == 1:
+        hv = common.holder(GL, spans[0])
+        r = strip(rets[0].ch[0])
+        ok = r is spans[0] or (decl_of(r) or {}).get('id') == hv or any(x is spans[0] for x in r.walk())
+        detail = 'the function does not return the strcspn(line, "\\n") result'
+    elif hits and rets:
+        hv = common.holder(GL, hits[0])
+        H = Lin.sym(('var', hv, '')) if hv is not None else None
+        # every value the result variable can take: strlen(line) (no newline) or hit - line
+        vals = []
+        for r in rets:
+            d = decl_of(r.ch[0])
+            exprs = def_exprs(GL, d['id']) if d is not None else [r.ch[0]]
+            for e in exprs:
+                if strip(e).get('v') == 0:
+                    continue
+                vals.append(env.lin(e))
+        want = {repr(SL)}
+        got = set()
+        for v in vals:
+            if v is None:
+                got.add('?')
+            elif v == SL:
+                got.add(repr(SL))
+            elif hv is not None and len(v.t) == 2 and v.c == 0 and v.t.get(('var', p0, GL.params[0]['name'])) == -1 and \
+                    any(k[0] == 'var' and k[1] == hv and c_ == 1 for k, c_ in v.t.items()):
+                got.add('hit-line')
+            else:
+                got.add(repr(v))
+        ok = got == {repr(SL), 'hit-line'}
+        detail = 'the line length is one of %s, expected strlen(line) when there is no newline and newline - line otherwise' % sorted(got)
+    chk.ob('Q9', 'line-length-is-distance-to-newline', ok, GL.where(), GL.name, detail,
+           how='strlen(line) without a newline, position of the first newline otherwise')
+    # ---- copy of a line ---------------------------------------------------------------------------------------
+    q0 = CL.params[0]['id']
+    envc = LinEnv(CL)
+    lc = [c for c in CL.calls(GL.name) if (decl_of(arg(c, 0)) or {}).get('id') == q0]
+    ok, detail = False, 'the copy does not measure the line with %s(line)' % GL.name
+    if lc:
+        lv = common.holder(CL, lc[0])
+        LL = Lin.sym(('var', lv, '')) if lv is not None else None
+
+        def is_len(node):
+            v = envc.lin(node)
+            d = decl_of(node)
+            if d is not None and d['id'] == lv:
+                return True
+            return v is not None and len(v.t) == 1 and v.c == 0 and any(k[0] == 'var' and k[1] == lv and c_ == 1 for k, c_ in v.t.items()) \
+                or (strip(node).k == 'CallExpr' and strip(node).get('callee') == GL.name)
+        dup = [c for c in CL.calls() if c.get('callee') in ('strndup', '__strndup')]
+        cps = [c for c in CL.calls() if c.get('callee') in ('strncpy', 'memcpy', 'memmove')]
+        if dup:
+            ok = (decl_of(arg(dup[0], 0)) or {}).get('id') == q0 and is_len(arg(dup[0], 1))
+            detail = '%s copies %s characters, not the length of the line: the copy then contains the newline (or more), and ' \
+                     'disable, which skips strlen(copy) bytes and then one newline, removes the following line as well when ' \
+                     'that line is empty' % (render(dup[0])[:50], render(arg(dup[0], 1)))
+        elif cps:
+            c = cps[0]
+            term = [n for n in CL.body.walk() if n.k == 'BinaryOperator' and n['op'] == '=' and strip(n.ch[1]).get('v') == 0 and
+                    strip(n.ch[0]).k == 'ArraySubscriptExpr' and
+                    (decl_of(strip(n.ch[0]).ch[0]) or {}).get('id') == (decl_of(arg(c, 0)) or {}).get('id')]
+            ok = (decl_of(arg(c, 1)) or {}).get('id') == q0 and is_len(arg(c, 2)) and bool(term) and \
+                all(is_len(strip(t.ch[0]).ch[1]) for t in term)
+            detail = '%s / the terminator do not cut the copy at the length of the line' % render(c)[:50]
+    chk.ob('Q9', 'line-copy-holds-exactly-the-line', ok, CL.where(), CL.name, detail,
+           how='copy count and terminator index equal %s(line)' % GL.name)
 
 
 def skip_depends_on_rest_of_line(F, copy2, linev):
